@@ -85,3 +85,4 @@ class NormCircuit:
                 and forall_range(len(circuit._usepulses), lambda k: same(result._usepulses[k], circuit._usepulses[k])))
 
     raises_only = ("JaqalError",)
+
